@@ -1,0 +1,27 @@
+// Copyright Amazon.com, Inc. or its affiliates. All Rights Reserved.
+//
+// Licensed under the Apache License, Version 2.0 (the "License");
+// you may not use this file except in compliance with the License.
+// You may obtain a copy of the License at
+//
+//      http://www.apache.org/licenses/LICENSE-2.0
+//
+// Unless required by applicable law or agreed to in writing, software
+// distributed under the License is distributed on an "AS IS" BASIS,
+// WITHOUT WARRANTIES OR CONDITIONS OF ANY KIND, either express or implied.
+// See the License for the specific language governing permissions and
+// limitations under the License.
+
+//go:build !verif
+
+package escape
+
+import "golang.org/x/tools/go/ssa"
+
+// No-op counterparts of the verification hooks in verif_hooks.go (build tag `verif`).
+
+func verifPickBlock([]*ssa.BasicBlock) {}
+
+func verifPickFunc([]*functionAnalysisState) {}
+
+func verifMonoViolation(ssa.Instruction, string) {}
